@@ -17,6 +17,7 @@
                             nothing.
 -/
 import MbVerif.Proofs.SampleState
+import MbVerif.Proofs.Validate
 
 namespace Mb.C06
 open Mb Mb.Fp
@@ -28,6 +29,22 @@ theorem C06_draw_nonneg (k : Nat) : le (.fin 0) (draw k) = true := by
 /-- the running sums of a validated vector never decrease -/
 theorem C06_mono {n : Nat} {ts : List Trans} (hv : C12.VecWF n ts) : Mono (.fin 0) ts :=
   mono_of_probs good_zero hv.probs
+
+/-- the hypothesis `C12.VecWF` of the theorems below is what validation establishes: for the
+    NaN-rejecting comparisons outright … -/
+theorem C06_vecWF_of_validated_fixed {n : Nat} {ts : List Trans}
+    (h : Validate.transVecWith Validate.checksFixed n ts = true) : C12.VecWF n ts :=
+  Validate.transVecWith_sound Validate.checksFixed_sound (fun _ _ => trivial) h
+
+/-- … and for today's comparisons whenever no probability of the vector is NaN.
+    (TODAY-dependent, like Part 3 of Props/C12.lean: once `Validate.probBad/sumBad` are the `…Fixed`
+    variants, replace by
+      theorem C06_vecWF_of_validated {n ts} (h : Validate.transVec n ts = true) : C12.VecWF n ts := by
+        rw [Validate.transVec_eq_with] at h; exact C06_vecWF_of_validated_fixed h ) -/
+theorem C06_vecWF_of_validated_today {n : Nat} {ts : List Trans} (h : Validate.transVec n ts = true)
+    (hnn : ∀ t ∈ ts, val32 t.prob ≠ .nan) : C12.VecWF n ts := by
+  rw [Validate.transVec_eq_with] at h
+  exact Validate.transVecWith_sound Validate.checksCur_sound_on_non_nan hnn h
 
 /-- which outcomes select which target -/
 theorem C06_pick_some_iff {n : Nat} {ts : List Trans} (hv : C12.VecWF n ts) (k t : Nat) :
@@ -133,13 +150,6 @@ theorem C06_share_close {n : Nat} {ts : List Trans} (hv : C12.VecWF n ts) (b : B
     unfold Band.size
     exact band_share_close hg.1 hp (bands_hi_eq _ _ b hb) hbh hc1
 
-theorem rep_one : Rep 24 (-149) 1 := ⟨1, 0, by decide, by decide, by simp [pow2_zero]⟩
-
-theorem round_one : f32.round 1 = .fin 1 :=
-  Fmt.round_eq_self_of_rep f32 rep_one
-    (by have : pow2 0 < pow2 f32.emax := pow2_lt_pow2 (by decide); rwa [pow2_zero] at this)
-    (by have := pow2_pos f32.emax; linarith)
-
 /-- a first transition declared with probability 1.0 is taken on every outcome of the draw -/
 theorem C06_prob_one (t0 : Trans) (rest : List Trans) (h : val32 t0.prob = .fin 1) (k : Nat) (hk : k < N) :
     pick (t0 :: rest) k = some t0.target := by
@@ -167,14 +177,6 @@ example : C12.VecWF 2 [⟨1, 0x3f000000⟩, ⟨STATE_END, 0x3e800000⟩] ∧
   refine ⟨by rw [← C12.vecWfB_iff]; decide +kernel, by decide +kernel⟩
 
 /-! ### the draw itself: `gen_range(0.0..1.0)` on f32 takes exactly the values `k/2^23` -/
-
-theorem rep_unit (k : Nat) (hk : k < 2 ^ 23) : Rep 24 (-149) ((k : ℚ) / ((2 ^ 23 : Nat) : ℚ)) := by
-  refine ⟨k, -23, by decide, ?_, ?_⟩
-  · rw [abs_of_nonneg (by positivity)]
-    have : (k : Int) < 2 ^ 23 := by exact_mod_cast hk
-    omega
-  · rw [pow2_eq_zpow]; push_cast
-    rw [zpow_neg]; norm_num; ring
 
 /-- one `next_u32` word `w` yields the draw `k/2^23` with `k = w >> 9`, without retry -/
 theorem C06_draw01 (w : UInt32) :
